@@ -7,6 +7,63 @@ import modelcheck
 import gen_strings
 
 
+LENGTHS = [15, 16, 17, 63, 64, 65, 127, 128, 129, 255, 256, 257, 1023, 1024, 1025, 4095, 4096, 4097, 65535, 65536, 65537,
+           131072, 300000]
+
+
+def long_program(n):
+    """the same n-character text built by four routes (doubling then slicing, char-wise from a pattern, interpolation of
+    halves, concatenation in another association), compared pairwise, used as map keys and list elements; a text that
+    differs in its last character must stay different. Expected output is known by construction."""
+    return '''fn dbl(n) { let s = "ab"; while s.len() < n { s = s + s; } return s.slice(0, n); }
+fn halves(n) { let h = (n / 2).floor(); let a = dbl(n).slice(0, h); let b = dbl(n).slice(h, n); return "${a}${b}"; }
+fn assoc(n) { let q = (n / 4).floor(); let s = dbl(n); return s.slice(0, q) + (s.slice(q, 2 * q) + s.slice(2 * q, n)); }
+fn odd(n) { return dbl(n - 1) + "#"; }
+let n = %d;
+let a = dbl(n);
+let b = halves(n);
+let c = assoc(n);
+let d = odd(n);
+print(a.len(), b.len(), c.len(), d.len());
+print(a == b, b == c, a == c, a != b, a == d, a != d);
+let m = {};
+m[a] = 1;
+m[b] = 2;
+m[d] = 3;
+print(m.len(), m[c], m.has(c), m.has(d), m.has(dbl(n)), m.has(dbl(n + 1)));
+print([a, d].has(c), [a, d].index(b), [a, d].index(odd(n)), (a,).has(halves(n)));
+let junk = [];
+for i in 50.times() { junk.push("j${i}" + dbl(40)); }
+print(a == dbl(n), m[halves(n)], m[odd(n)]);
+''' % n
+
+
+def long_strings(chk, bins, tier):
+    import os
+    import vlib
+    work = os.path.join(vlib.WORK, 'C09', 'long')
+    os.makedirs(work, exist_ok=True)
+    runs = [('dbg', ['--intern-check', '--gc', 'every:50', '--sweep', 'alt']), ('rel', []), ('dbg', ['--gc', 'never'])]
+    for n in LENGTHS:
+        want = ['%d %d %d %d' % (n, n, n, n), 'true true true false false true', '2 2 true true true false',
+                'true 0 1 true', 'true 2 3']
+        p = os.path.join(work, 'len%d.lay' % n)
+        open(p, 'w').write(long_program(n))
+        for cfg, opts in runs:
+            r = vlib.lyrun(bins[cfg], p, opts + ['--steps', '200000000'], timeout=300, cwd=work)
+            chk.evaluations += 1
+            chk.count('long_string_programs')
+            if r.outcome in ('timeout', 'harness'):
+                chk.inconclusive.append('long string program %d: %s' % (n, r.outcome))
+                continue
+            got = [l for l in r.out.split('\n') if l]
+            viol = [v for v in (r.stats or {}).get('violations', []) if v.startswith('intern')]
+            if r.outcome != 'ok' or got != want or viol:
+                chk.violation('equal texts of %d characters built by different routes: %s' % (
+                    n, ('monitor: ' + viol[0][:120]) if viol else 'outcome %s, printed %r, the text says %r' % (r.outcome, got, want)),
+                    {'main.lay': long_program(n)}, {'length': n, 'cfg': cfg, 'opts': opts})
+
+
 def main():
     tier = sys.argv[sys.argv.index('--tier') + 1] if '--tier' in sys.argv else 'quick'
     ic = ['--intern-check']
@@ -27,7 +84,7 @@ def main():
               'content, keys point into their values, entries are held strings after a full sweep)'),
         n_quick=800, n_thorough=40000,
         stat_keys=('collections', 'intern_checks', 'intern_strings', 'h_reused', 'objs_freed'),
-        requires=[('intern_checks', 20000, 500000), ('intern_strings', 1000000, 20000000)])
+        requires=[('intern_checks', 20000, 500000), ('intern_strings', 1000000, 20000000)], post=long_strings)
 
 
 if __name__ == '__main__':
